@@ -18,7 +18,7 @@ func init() {
 	register(&Check{
 		ID:  "C11",
 		Run: runC11,
-		Explanation: "Decides the finite tables the object writer depends on: (R1 exhaustiveness) the type switches of appendPDFObject, writeObjectGeneric and Dict.PDFString / Array.PDFString cover every implementor of types.Object (enumerated through go/types) except those in the documented not-serialisable-here table; in appendPDFObject the clauses for IndirectRef, Name, StringLiteral and HexLiteral delegate to the kind's own PDFString (so both writer paths emit the same token) — for IndirectRef an own implementation must read both ObjectNumber and GenerationNumber; (R2 separators) the no-space clause of dictObjectNeedsSpace / arrayObjectNeedsSpace contains only kinds whose token starts with a delimiter ('<<' '[' '/' '(' '<', ISO 32000-1 7.2.2) and never Integer, Float, Boolean, IndirectRef or null; the Sprintf formats in Dict.PDFString put a space between key and value for exactly those regular-start kinds; (R3 name delimiters) needsHexSequence escapes every delimiter character ( ) < > [ ] { } / % and # — extracted from its comparison constants or constant membership string — and every byte outside '!'..'~'. NOT decided: the round trip itself (number formatting, string escaping of particular bytes is C12).",
+		Explanation: "Decides the finite tables the object writer depends on: (R1 exhaustiveness) the type switches of appendPDFObject, writeObjectGeneric and Dict.PDFString / Array.PDFString cover every implementor of types.Object (enumerated through go/types) except those in the documented not-serialisable-here table; in appendPDFObject the clauses for IndirectRef, Name, StringLiteral and HexLiteral delegate to the kind's own PDFString (so both writer paths emit the same token) — for IndirectRef an own implementation must read both ObjectNumber and GenerationNumber; (R2 separators) the no-space clause of dictObjectNeedsSpace / arrayObjectNeedsSpace contains only kinds whose token starts with a delimiter ('<<' '[' '/' '(' '<', ISO 32000-1 7.2.2) and never Integer, Float, Boolean, IndirectRef or null; the Sprintf formats in Dict.PDFString put a space between key and value for exactly those regular-start kinds; (R3 name delimiters) needsHexSequence escapes every delimiter character ( ) < > [ ] { } / % and # — extracted from its comparison constants or constant membership string — and every byte outside '!'..'~'; (R2, arrays) in Array.PDFString every type-switch clause that appends its element without the separator value is a self-delimiting kind — a regular-start kind (number, boolean, reference, null) written without separator fuses with the element before it; (R4 reader side) the string-literal scanner balancedParenthesesPrefix tracks whether a backslash is itself escaped: its escape flag is turned on only by a backslash seen in the not-escaped state (or it counts backslash parity), otherwise an even run of backslashes before a parenthesis is mis-scanned and a written string does not parse back. NOT decided: the round trip itself (number formatting, string escaping of particular bytes is C12).",
 		Rules: []string{
 			"C11.R1 TABLE: type-switch exhaustiveness over types.Object implementors; delegation to PDFString",
 			"C11.R2 TABLE: separator tables vs self-delimiting kinds",
@@ -31,10 +31,11 @@ func init() {
 	register(&Check{
 		ID:  "C12",
 		Run: runC12,
-		Explanation: "Decides the finite tables and first-write shape of the string/name codecs: (R1) Escape's byte->letter table and escaped's letter->byte table are mutually inverse on {LF<->n, CR<->r, TAB<->t, BS<->b, FF<->f}; Escape treats backslash and both parentheses as special; for every special byte the first thing written after the match is a backslash, unconditionally (no pass-through of pre-escaped sequences), and for non-special bytes exactly the byte itself; escaped passes '(' and ')' through; (R2) name encoding: EncodeName writes '#' followed by a two-digit hex rendering of exactly one byte (encoding/hex on a 1-byte slice, or a %02x format) for every byte needsHexSequence selects (delimiter set as in C11.R3) and DecodeName consumes exactly two characters after '#' (slice s[i+1:i+3], i += 2). NOT decided: octal sequences, CR/LF interactions, UTF-16 (C13), the quantified round trip.",
+		Explanation: "Decides the finite tables and first-write shape of the string/name codecs: (R1) Escape's byte->letter table and escaped's letter->byte table are mutually inverse on {LF<->n, CR<->r, TAB<->t, BS<->b, FF<->f}; Escape treats backslash and both parentheses as special; for every special byte the first thing written after the match is a backslash, unconditionally (no pass-through of pre-escaped sequences), and for non-special bytes exactly the byte itself; escaped passes '(' and ')' through; (R2) name encoding: EncodeName writes '#' followed by a two-digit hex rendering of exactly one byte (encoding/hex on a 1-byte slice, or a %02x format) for every byte needsHexSequence selects (delimiter set as in C11.R3) and DecodeName consumes exactly two characters after '#' (slice s[i+1:i+3], i += 2); (R3 byte exactness) Escape, Unescape, escaped, EncodeName and DecodeName never write an integer to their output as a string or rune (WriteRune / WriteString(string(int)) is UTF-8 encoding: a byte >= 0x80 would become two bytes), and every non-nil result of Unescape is its accumulation buffer's Bytes() without a further call that could drop or rewrite bytes depending on the content (Unescape also decodes binary strings). NOT decided: octal sequences, CR/LF interactions, UTF-16 (C13), the quantified round trip.",
 		Rules: []string{
 			"C12.R1 TABLE agreement: Escape vs escaped; backslash-first shape",
 			"C12.R2 TABLE/shape: EncodeName two-digit hex, DecodeName consumes two digits",
+			"C12.R3 byte exactness: no integer->string conversions in the codecs; Unescape returns its buffer unprocessed",
 		},
 		Assumptions: []string{"encoding/hex renders one byte as two digits"},
 		Technique:   "switch-table extraction from SSA comparison chains and phi edges; first-write path exploration from the match edge; callee/format classification",
@@ -100,6 +101,8 @@ var c11NotSerialisedHere = map[string]map[string]string{
 }
 
 func runC11(c *Ctx) {
+	c.R.MinInst["C11.R4"] = 1
+	checkEscapeParity(c, "C11.R4", "pkg/pdfcpu/model.balancedParenthesesPrefix")
 	p, r := c.P, c.R
 	r.MinInst["C11.R1"] = 20
 	r.MinInst["C11.R2"] = 2
@@ -264,6 +267,8 @@ func runC11(c *Ctx) {
 			r.OK("C11.R2", FuncID(fn), "formats", p.Pos(fn.Pos()), fmt.Sprintf("%d entry formats: regular-start kinds have a space after the key", n), true)
 		}
 	}
+	// Array.PDFString: element separators (round 2 of seeding)
+	checkArraySeparators(c, selfDelimiting)
 	// ---- R3
 	checkNameDelimiters(c, "C11.R3")
 }
@@ -529,6 +534,8 @@ func runC12(c *Ctx) {
 	}
 	// ---- R2
 	checkNameDelimiters(c, "C12.R2")
+	r.MinInst["C12.R3"] = 5
+	checkByteExactCodecs(c)
 	if fn := p.Func("pkg/pdfcpu/types.EncodeName"); fn == nil {
 		r.Bad("C12.R2", "pkg/pdfcpu/types.EncodeName", "anchor", "", "UNRESOLVED-ANCHOR")
 	} else {
@@ -603,4 +610,312 @@ func offsetOf(v ssa.Value) int64 {
 		}
 	}
 	return 0
+}
+
+// ---------------- C12.R3 (round 2 of seeding): the codecs are byte-exact ----------------
+//
+// (a) Escape, Unescape, EncodeName, DecodeName contain no integer→string conversion: string(rune(v)) is UTF-8 *encoding*, which
+//     turns a byte >= 0x80 into two bytes; decoded bytes must be written as bytes.
+// (b) the byte slice Unescape returns is its accumulation buffer as it stands (b.Bytes()), not the result of a further call that
+//     could drop or rewrite bytes depending on the content (TrimPrefix, ToValidUTF8 ...): Unescape also decodes binary strings
+//     (file identifiers, encryption dictionary entries, signature contents).
+func checkByteExactCodecs(c *Ctx) {
+	p, r := c.P, c.R
+	for _, fid := range []string{"pkg/pdfcpu/types.Escape", "pkg/pdfcpu/types.Unescape", "pkg/pdfcpu/types.EncodeName", "pkg/pdfcpu/types.DecodeName", "pkg/pdfcpu/types.escaped"} {
+		fn := p.Func(fid)
+		if fn == nil {
+			r.Bad("C12.R3", fid, "anchor", "", "UNRESOLVED-ANCHOR")
+			continue
+		}
+		var bad []string
+		eachInstr(fn, func(_ *ssa.BasicBlock, _ int, i ssa.Instruction) {
+			call, ok := i.(*ssa.Call)
+			if !ok {
+				return
+			}
+			_, ref := callRef(call)
+			// output writers of bytes.Buffer / strings.Builder
+			if strings.HasSuffix(ref, ".WriteRune") {
+				bad = append(bad, p.Pos(call.Pos()))
+				return
+			}
+			if !strings.HasSuffix(ref, ".WriteString") {
+				return
+			}
+			for _, a := range call.Call.Args {
+				cv, ok := a.(*ssa.Convert)
+				if !ok {
+					continue
+				}
+				from, okf := cv.X.Type().Underlying().(*types.Basic)
+				to, okt := cv.Type().Underlying().(*types.Basic)
+				if okf && okt && from.Info()&types.IsInteger != 0 && to.Kind() == types.String {
+					bad = append(bad, p.Pos(cv.Pos()))
+				}
+			}
+		})
+		if len(bad) == 0 {
+			r.OK("C12.R3", fid, "no rune->string conversion", p.Pos(fn.Pos()), "no WriteRune and no WriteString(string(integer)) on the output: bytes are written as bytes", true)
+		} else {
+			r.Bad("C12.R3", fid, "no rune->string conversion", bad[0], "an integer is written to the output as a string/rune (UTF-8 encoding of the code point): a decoded byte >= 0x80 becomes two bytes, so the round trip is not the identity for such input")
+		}
+	}
+	if fn := p.Func("pkg/pdfcpu/types.Unescape"); fn != nil {
+		ok, n := true, 0
+		why := ""
+		for _, ret := range returnsOf(fn) {
+			if len(ret.Results) == 0 || isNilConst(ret.Results[0]) {
+				continue
+			}
+			n++
+			v := ret.Results[0]
+			call, isCall := v.(*ssa.Call)
+			if !isCall {
+				continue
+			}
+			_, ref := callRef(call)
+			if ref != "bytes.Buffer.Bytes" {
+				ok = false
+				why = ref
+			}
+		}
+		if ok && n > 0 {
+			r.OK("C12.R3", FuncID(fn), "returns the buffer", p.Pos(fn.Pos()), "every non-nil result is the accumulation buffer's Bytes()", true)
+		} else {
+			r.Bad("C12.R3", FuncID(fn), "returns the buffer", p.Pos(fn.Pos()), "the unescaped bytes pass through "+why+" before they are returned: content-dependent post-processing makes Unescape(Escape(b)) differ from b for binary strings")
+		}
+	}
+}
+
+// ---------------- escape parity in string-literal scanners (C11.R4 / C20.R4, round 2 of seeding) ----------------
+//
+// A scanner that looks for the closing parenthesis of a literal string must know whether a backslash is itself escaped:
+// "(C:\\)" ends at the first ')', "(a\))" does not. Two idioms are recognised:
+//   flag    a loop-carried bool; the backslash comparison that turns it on is evaluated only in the not-escaped state
+//   parity  the number of consecutive backslashes before the candidate is counted and tested with % 2
+// A scanner with neither (or with the flag turned on regardless of its state) mis-scans an even run of backslashes.
+func checkEscapeParity(c *Ctx, rule, fid string) {
+	p, r := c.P, c.R
+	fn := p.Func(fid)
+	if fn == nil {
+		r.Bad(rule, fid, "anchor", "", "UNRESOLVED-ANCHOR")
+		return
+	}
+	isBackslash := func(v ssa.Value) bool {
+		k, ok := constInt(v)
+		return ok && k == 0x5c
+	}
+	// parity idiom
+	parity := false
+	eachInstr(fn, func(_ *ssa.BasicBlock, _ int, i ssa.Instruction) {
+		b, ok := i.(*ssa.BinOp)
+		if !ok || b.Op != token.REM {
+			return
+		}
+		if k, ok := constInt(b.Y); ok && k == 2 {
+			// its result decides a branch
+			for _, rf := range *b.Referrers() {
+				if cmp, ok := rf.(*ssa.BinOp); ok && (cmp.Op == token.EQL || cmp.Op == token.NEQ) && len(condEdges(cmp, true)) > 0 {
+					parity = true
+				}
+			}
+		}
+	})
+	// flag idiom
+	flagOK, flagSeen := false, false
+	eachInstr(fn, func(_ *ssa.BasicBlock, _ int, i ssa.Instruction) {
+		cmp, ok := i.(*ssa.BinOp)
+		if !ok || cmp.Op != token.EQL || !(isBackslash(cmp.X) || isBackslash(cmp.Y)) {
+			return
+		}
+		// does the true edge turn a loop-carried bool on?
+		for _, e := range condEdges(cmp, true) {
+			tgt := e.From.Succs[e.Succ]
+			for _, phiBlk := range append([]*ssa.BasicBlock{tgt}, tgt.Succs...) {
+				for _, in := range phiBlk.Instrs {
+					phi, ok := in.(*ssa.Phi)
+					if !ok || !isBoolType(phi.Type()) {
+						continue
+					}
+					for k, ev := range phi.Edges {
+						cst, ok := ev.(*ssa.Const)
+						if !ok || cst.Value == nil || cst.Value.String() != "true" {
+							continue
+						}
+						pred := phiBlk.Preds[k]
+						if pred != tgt && pred != e.From {
+							continue
+						}
+						flagSeen = true
+						// the comparison is evaluated only when the flag (this phi, or the loop phi it feeds) is false
+						for _, want := range []bool{false} {
+							for _, fe := range flagFalseEdges(fn, want) {
+								if edgeDominates(fe, cmp.Block()) || fe.From.Succs[fe.Succ] == cmp.Block() {
+									flagOK = true
+								}
+							}
+						}
+					}
+				}
+			}
+		}
+	})
+	pos := p.Pos(fn.Pos())
+	switch {
+	case parity:
+		r.OK(rule, fid, "escape parity", pos, "counts the backslashes before the candidate and tests the count % 2", true)
+	case flagSeen && flagOK:
+		r.OK(rule, fid, "escape parity", pos, "escape flag: the backslash test that turns the flag on is evaluated only in the not-escaped state", true)
+	case flagSeen:
+		r.Bad(rule, fid, "escape parity", pos, "the escape flag is turned on by every backslash, also by one that is itself escaped: an even run of backslashes before a parenthesis, as in (C:\\\\), makes the scanner skip the closing parenthesis")
+	default:
+		r.Bad(rule, fid, "escape parity", pos, "the scanner looks for a parenthesis and only checks whether the previous byte is a backslash: it cannot tell an escaped backslash from an escaping one (no escape flag, no parity count)")
+	}
+}
+
+// flagFalseEdges: edges on which some loop-carried bool phi of fn is false.
+func flagFalseEdges(fn *ssa.Function, _ bool) []Edge {
+	var out []Edge
+	eachInstr(fn, func(_ *ssa.BasicBlock, _ int, i ssa.Instruction) {
+		phi, ok := i.(*ssa.Phi)
+		if !ok || !isBoolType(phi.Type()) {
+			return
+		}
+		out = append(out, condEdges(phi, false)...)
+	})
+	return out
+}
+
+
+// checkArraySeparators (C11.R2): in (Array).PDFString every type-switch clause whose element is appended without the separator
+// string must be a self-delimiting kind (its token starts with a delimiter: << [ / ( <). A regular-start kind (number, boolean,
+// reference, null) written without separator fuses with the previous element: [1true], [/Flagtrue].
+func checkArraySeparators(c *Ctx, selfDelimiting map[string]bool) {
+	p, r := c.P, c.R
+	fid := "pkg/pdfcpu/types.(Array).PDFString"
+	fn := p.Func(fid)
+	if fn == nil {
+		r.Bad("C11.R2", fid, "anchor", "", "UNRESOLVED-ANCHOR")
+		return
+	}
+	// the separator: a string phi over the constants "" and " "
+	var sep ssa.Value
+	eachInstr(fn, func(_ *ssa.BasicBlock, _ int, i ssa.Instruction) {
+		phi, ok := i.(*ssa.Phi)
+		if !ok || len(phi.Edges) != 2 {
+			return
+		}
+		a, oka := constString(phi.Edges[0])
+		b, okb := constString(phi.Edges[1])
+		if oka && okb && ((a == "" && b == " ") || (a == " " && b == "")) {
+			sep = phi
+		}
+	})
+	if sep == nil {
+		r.Bad("C11.R2", fid, "separator", p.Pos(fn.Pos()), "UNRESOLVED-ANCHOR: no separator value (\"\" for the first element, \" \" afterwards) found")
+		return
+	}
+	usesSep := func(v ssa.Value) bool {
+		seen := map[ssa.Value]bool{}
+		var walk func(x ssa.Value, d int) bool
+		walk = func(x ssa.Value, d int) bool {
+			if x == sep {
+				return true
+			}
+			if x == nil || seen[x] || d > 6 {
+				return false
+			}
+			seen[x] = true
+			switch y := x.(type) {
+			case *ssa.BinOp:
+				return walk(y.X, d+1) || walk(y.Y, d+1)
+			case *ssa.MakeInterface:
+				return walk(y.X, d+1)
+			case *ssa.Call:
+				if _, ref := callRef(y); ref == "fmt.Sprintf" {
+					for _, e := range variadicElems(y) {
+						if walk(e, d+1) {
+							return true
+						}
+					}
+				}
+			case *ssa.Slice:
+				return walk(y.X, d+1)
+			}
+			return false
+		}
+		return walk(v, 0)
+	}
+	n := 0
+	var bad []string
+	var noSep []string
+	for kind, ta := range typeSwitchCases(fn) {
+		// success edge of this clause
+		for _, rf := range *ta.Referrers() {
+			ex, ok := rf.(*ssa.Extract)
+			if !ok || ex.Index != 1 {
+				continue
+			}
+			for _, e := range condEdges(ex, true) {
+				// first append reached from the success edge
+				start := e.From.Succs[e.Succ]
+				seenB := map[*ssa.BasicBlock]bool{}
+				stack := []*ssa.BasicBlock{start}
+				var app *ssa.Call
+				for len(stack) > 0 && app == nil {
+					b := stack[len(stack)-1]
+					stack = stack[:len(stack)-1]
+					if seenB[b] {
+						continue
+					}
+					seenB[b] = true
+					for _, in := range b.Instrs {
+						if cc, ok := in.(*ssa.Call); ok {
+							if bi, ok := cc.Call.Value.(*ssa.Builtin); ok && bi.Name() == "append" {
+								app = cc
+								break
+							}
+						}
+					}
+					if app == nil {
+						stack = append(stack, b.Succs...)
+					}
+				}
+				if app == nil {
+					continue
+				}
+				n++
+				has := false
+				if sl, ok := app.Call.Args[1].(*ssa.Slice); ok {
+					if al, ok := sl.X.(*ssa.Alloc); ok {
+						for _, arf := range *al.Referrers() {
+							if ia, ok := arf.(*ssa.IndexAddr); ok {
+								for _, st := range *ia.Referrers() {
+									if s2, ok := st.(*ssa.Store); ok && usesSep(s2.Val) {
+										has = true
+									}
+								}
+							}
+						}
+					}
+				}
+				if !has {
+					noSep = append(noSep, kind)
+					if !selfDelimiting[kind] {
+						bad = append(bad, kind)
+					}
+				}
+			}
+		}
+	}
+	sort.Strings(bad)
+	sort.Strings(noSep)
+	switch {
+	case n == 0:
+		r.Bad("C11.R2", fid, "element separators", p.Pos(fn.Pos()), "UNRESOLVED-ANCHOR: no type-switch clause appending an element found")
+	case len(bad) > 0:
+		r.Bad("C11.R2", fid, "element separators", p.Pos(fn.Pos()), "array elements of kind "+strings.Join(dedupStrings(bad), ", ")+" are written without the separator although their token starts with a regular character: the element fuses with the one before it ([1true], [/Flagtrue]) and reads back as something else")
+	default:
+		r.OK("C11.R2", fid, "element separators", p.Pos(fn.Pos()), fmt.Sprintf("%d clauses; written without separator: %s (all start with a delimiter)", n, strings.Join(dedupStrings(noSep), ",")), true)
+	}
 }
